@@ -262,7 +262,10 @@ def modcovar(x, order):
 
     # Coefficients estimated via the covariance method
     # Here we use lstsq rathre than solve function because Xc is not square matrix
-    a, residues, rank, singular_values = scipy.linalg.lstsq(-Xc, X1)
+    # singular values below max(M, N) * eps (relative) are rounding noise of linearly
+    # dependent regressors; scipy's default keeps everything above eps
+    rcond = max(Xc.shape) * np.finfo(Xc.dtype).eps
+    a, residues, rank, singular_values = scipy.linalg.lstsq(-Xc, X1, cond=rcond)
 
     # Estimate the input white noise variance
 
